@@ -7,6 +7,7 @@ import Driver.Reader
 import Driver.Rules
 import Driver.BitIO
 import Driver.Expr
+import Driver.Float
 /-! Correspondence driver: `lake env lean --run Driver/Main.lean <suite>`; one JSON case per input line,
     one JSON outcome per output line (`{"id":…, …}` or `{"id":…,"err":…}`). -/
 open Lean
@@ -23,6 +24,7 @@ def dispatch (suite : String) (j : Json) : Except String Json :=
   | "text" => DriverReader.handle j
   | "rules" => DriverRules.handle j
   | "bitio" => DriverBitIO.handle j
+  | "floatconv" => DriverFloat.handle j
   | "expr" | "const" => DriverExpr.handle j
   | "garbage" => DriverExpr.handleGarbage j
   | s => throw s!"unknown suite {s}"
